@@ -35,6 +35,9 @@ var scenarios = []scenario{
 	{"3x1-two-images", [][]string{{"i1"}, {"i1"}, {"i2"}}, -1},
 	{"2x1-same-error", [][]string{{"i1"}, {"i1"}}, 0},
 	{"2+1-repeat", [][]string{{"i1", "i1"}, {"i1"}}, 1},
+	// images that differ only in tag / in digest within one repository, and in registry only
+	{"3x1-same-repo-two-tags", [][]string{{"quay.io/org/pkg:v1"}, {"quay.io/org/pkg:v2"}, {"quay.io/org/pkg:v1"}}, -1},
+	{"2x2-tag-digest-registry", [][]string{{"quay.io/org/pkg:v1", "ghcr.io/org/pkg:v1"}, {"quay.io/org/pkg@sha256:" + strings.Repeat("a", 64), "quay.io/org/pkg:v1"}}, -1},
 }
 
 var thoroughScenarios = []scenario{
